@@ -428,6 +428,14 @@ func c18(ctx *Ctx) {
 	addC("same-file-two-packages", []string{"--schema-package", "v=p1", "--schema-package", "w=p2", "--schema-output", "v=same.go", "--schema-output", "w=same.go"}, []string{"s.json", "t.json"}, 1)
 	// (a package mapping without --schema-output is the documented "do not emit this schema": crossPackageNoOutput)
 	addC("control-mapped", []string{"--schema-package", "v=example.com/p1", "--schema-root-type", "v=Named", "--schema-output", "v=mapped/named.go"}, []string{"s.json"}, -1)
+	// (C') an output that cannot be written (its path is an existing directory) among several outputs: nothing may be written at all
+	for _, blocked := range []string{"a.go", "b.go"} {
+		blocked := blocked
+		runs = append(runs, &c18Run{id: "C18/C/one-of-two-outputs-is-a-directory/" + blocked, mode: "stdout", fault: 1, kind: "output-fault", pos: blocked, judged: true,
+			files: []genlab.File{{Path: "s.json", Content: valid}, {Path: "t.json", Content: strings.Replace(valid, `"v"`, `"w"`, 1)}}, args: []string{"s.json", "t.json"},
+			flags: []string{"--schema-package", "v=example.com/p1", "--schema-output", "v=out/a.go", "--schema-package", "w=example.com/p1", "--schema-output", "w=out/b.go"},
+			setup: func(dir string) { os.MkdirAll(filepath.Join(dir, "out", blocked), 0o755) }})
+	}
 	c18Exec(bin, runs)
 	byOutcome := map[string]int{}
 	known := func(r *c18Run) string {
@@ -438,6 +446,8 @@ func c18(ctx *Ctx) {
 			return "EMPTY_ENUM_ALLOF_BRANCH_IGNORED"
 		case strings.Contains(r.kind, "enum") && r.pos == "allOf-branch-after-string-branch" && r.fault == 1 && r.res.Exit == 0:
 			return "PRIMITIVE_ALLOF_BRANCHES_NOT_GENERATED"
+		case r.kind == "output-fault" && r.res.Exit != 0 && strings.TrimSpace(r.res.Stderr) != "" && r.res.Stdout == "" && !strings.Contains(r.res.Stderr, "panic:") && len(r.res.Files) > len(r.before):
+			return "PARTIAL_OUTPUT_ON_WRITE_ERROR"
 		case r.kind == "malformed" && strings.HasPrefix(r.pos, "trailing-") && r.res.Exit == 0:
 			return "TRAILING_BYTES_IGNORED"
 		case r.kind == "malformed" && strings.HasPrefix(r.pos, "subst-") && r.res.Exit == 0 && r.fault == 1 && json.Valid([]byte(firstJSONValue(r.files[0].Content))):
@@ -448,7 +458,7 @@ func c18(ctx *Ctx) {
 	for i, r := range runs {
 		ctx.Run.Eval(fmt.Sprintf("%s|%s|%v|%v", r.id, r.mode, r.args, r.flags), true)
 		if k := known(r); k != "" && ctx.Run.Listed(k) {
-			ctx.Run.Known(k, fmt.Sprintf("%s: exit 0 (%d bytes written)", r.id, len(r.res.Stdout)), map[string]any{"kind": "cli", "files": r.files, "flags": r.flags, "args": r.args})
+			ctx.Run.Known(k, fmt.Sprintf("%s: exit %d (%d bytes on stdout, %d files in the tree, %d before)", r.id, r.res.Exit, len(r.res.Stdout), len(r.res.Files), len(r.before)), map[string]any{"kind": "cli", "files": r.files, "flags": r.flags, "args": r.args})
 			byOutcome["known:"+k]++
 			continue
 		}
